@@ -22,8 +22,9 @@ RULE = ("all 18 estimators, random valid configurations with integer random_stat
         "bit, that of a fresh object, of a second fit on the same object and of a clone; caller arrays checksummed around "
         "every call; get_params compared by value and identity around fit; clone / set_params(**get_params()) round "
         "trips. One evaluation = one history. Non-trivial = history of length >= 1; distinct by (estimator, ops).")
-ASSUMPTIONS = ["integer random_state only", "hyperparameter immutability is asserted for fit, predict, score; path() must give "
-               "the same result when repeated (property text), which implies that it leaves alpha as it found it"]
+ASSUMPTIONS = ["integer random_state only", "hyperparameter immutability is asserted for fit, predict, score and, at its return or raise, "
+               "for path(): path() must give the same result when repeated (property text), which implies that it leaves "
+               "alpha, dynamic and every other hyperparameter as it found them"]
 EVAL_COUNTER = "histories"
 REQUIRED = {"quick": dict({"histories": 450, "final_states_compared": 420, "side_effect_checks": 1200, "crashed_fits_injected": 60,
                            "paths_in_history": 40, "final_paths_compared": 40, "clone_roundtrips": 450, "refits_compared": 400},
@@ -103,8 +104,6 @@ def run_case(case, ctx, st):
     kind = "nonneg" if nonneg else "blobs"
     Xref = gen.make_data(rng, n, d, kind)
     params, pre = gen.random_config(rng, name, n, d, max_iter=int(rng.integers(1, 5)), nonneg=nonneg)
-    if params.get("dynamic"):
-        params["dynamic"] = bool(rng.random() < 0.3)
     if name == "Douglas":
         params.pop("feature_mask", None)       # histories fit data of other widths
     if name in gen.SPARSE:
@@ -116,7 +115,7 @@ def run_case(case, ctx, st):
     if is_kauri_pre:
         yref = gen.sym_matrix(rng, n, "psd")
     final_path = name in gen.SPARSE and rng.random() < 0.35 and d >= 2
-    path_args = dict(alpha_multiplier=2.0, min_features=1, max_patience=2)
+    path_args = dict(alpha_multiplier=2.0, min_features=1, max_patience=2, restore_best_weights=bool(rng.random() < 0.6))
     ctx.case = dict(case, estimator=name, params=params, n=n, d=d, final_path=final_path)
     ctx.count("histories")
     ctx.count("hist:" + name)
@@ -132,10 +131,12 @@ def run_case(case, ctx, st):
             y2 = gen.sym_matrix(rng, n2, "psd")
         return X2, y2
 
-    def guarded(fn, X, y, what, check_params=True):
-        """run a public call, check caller arrays and hyperparameters are untouched"""
+    def guarded(fn, X, y, what, check_params=True, obj=None):
+        """run a public call, check caller arrays and hyperparameters are untouched (path drives alpha while it runs: what
+        counts is the configuration it leaves behind when it returns or raises)"""
         hx, hy = digest(X), digest(y)
-        before = params_snapshot(est) if check_params else None
+        obj = est if obj is None else obj
+        before = params_snapshot(obj) if check_params else None
         out, exc = None, None
         try:
             with warnings.catch_warnings():
@@ -150,7 +151,7 @@ def run_case(case, ctx, st):
             ctx.violation("no-side-effect", f"caller-array-modified/{what}/{name}", observed={"call": what, "X_changed": digest(X) != hx,
                                                                                           "y_changed": digest(y) != hy}, expected="unchanged")
         if check_params:
-            after = params_snapshot(est)
+            after = params_snapshot(obj)
             changed = sorted(k for k in before if before[k] != after.get(k))
             if changed:
                 ctx.violation("hyperparameters-untouched", f"hyperparameter-modified-by-{what}/{name}",
@@ -178,9 +179,10 @@ def run_case(case, ctx, st):
     # ---- reference: a fresh object ---------------------------------------------------------------------------
     fresh = build()
     try:
-        with warnings.catch_warnings():
-            warnings.simplefilter("ignore")
-            ref_ret = fresh.path(Xref, yref, **path_args) if final_path else fresh.fit(Xref, yref)
+        ref_ret, ref_exc = guarded((lambda: fresh.path(Xref, yref, **path_args)) if final_path else (lambda: fresh.fit(Xref, yref)),
+                                   Xref, yref, "path" if final_path else "fit", obj=fresh)
+        if ref_exc is not None:
+            raise ref_exc
         ref_state = state_of(fresh, name)
     except Exception as e:
         ctx.count("reference_raised:" + type(e).__name__)
@@ -266,10 +268,14 @@ def run_case(case, ctx, st):
                 fitted = False
         elif op in ("path", "crash_path"):
             X2, y2 = (Xref, yref) if rng.random() < 0.5 else other_data()
+            if y2 is None and rng.random() < 0.4:
+                # "y: ... Otherwise, it is not used": a matrix handed to a model that does not ask for one
+                y2 = gen.sym_matrix(rng, len(X2), "psd")
+                ctx.count("paths_with_unused_y")
             if X2.shape[1] >= 2:
                 if op == "crash_path":
                     st.tap.fail_at_step = int(rng.integers(0, 40))
-                _, exc = guarded(lambda: est.path(X2, y2, **path_args), X2, y2, "path", check_params=False)
+                _, exc = guarded(lambda: est.path(X2, y2, **path_args), X2, y2, "path")
                 if isinstance(exc, _train.InjectedFault):
                     ctx.count("crashed_fits_injected")
                 st.tap.fail_at_step = None
@@ -279,7 +285,7 @@ def run_case(case, ctx, st):
     ctx.case = dict(ctx.case, ops=ops)
     # ---- final call ------------------------------------------------------------------------------------------
     if final_path:
-        ret, exc = guarded(lambda: est.path(Xref, yref, **path_args), Xref, yref, "path", check_params=False)
+        ret, exc = guarded(lambda: est.path(Xref, yref, **path_args), Xref, yref, "path")
     else:
         ret, exc = guarded(lambda: est.fit(Xref, yref), Xref, yref, "fit")
     if exc is not None:
@@ -305,7 +311,7 @@ def run_case(case, ctx, st):
         if exc2 is not None or not same_state(state_of(est, name), ref_state):
             ctx.violation("reproducible", f"refit-differs/{name}", observed={"ops": ops}, expected="bit-identical")
     else:
-        r2, exc2 = guarded(lambda: est.path(Xref, yref, **path_args), Xref, yref, "path", check_params=False)
+        r2, exc2 = guarded(lambda: est.path(Xref, yref, **path_args), Xref, yref, "path")
         ctx.count("refits_compared")
         if exc2 is not None or not same_state(state_of(est, name), ref_state) or \
                 not all(list(map(repr, r2[j])) == list(map(repr, ref_ret[j])) for j in range(1, 5)):
